@@ -224,6 +224,7 @@ def in_fresh_fork(fn, arg, watchdog=600):
                 os.setpgid(0, 0)      # own process group: whatever this child leaves behind is killed with it
             except OSError:
                 pass
+            _die_with_parent()
             # the library under test may print and warn; neither belongs in the check's output
             dn = os.open(os.devnull, os.O_WRONLY)
             os.dup2(dn, 1)
@@ -420,9 +421,20 @@ def _history_job(args):
             "prefix": [prefix[c] for c in keep], "plan": plan, "digests": [a1, b1]}
 
 
+def _die_with_parent():
+    """Linux: this process gets SIGKILL when the process that forked it dies, so that a check that gives up (watchdog) leaves no
+    workers or isolated children behind holding the caller's pipes"""
+    try:
+        import ctypes
+        ctypes.CDLL("libc.so.6", use_errno=True).prctl(1, int(signal.SIGKILL), 0, 0, 0)      # PR_SET_PDEATHSIG
+    except Exception:
+        pass
+
+
 def _worker_init():
     # forked after warm-up; nothing to import. Make sure stray signals kill us quietly.
     signal.signal(signal.SIGINT, signal.SIG_DFL)
+    _die_with_parent()
 
 
 class Farm(object):
